@@ -146,6 +146,11 @@ class EEMSWrite(SameArrayShapeMixin, Command):
             with Dataset(kwargs["DimensionFileName"]) as dim_dataset:
                 dimensions = dim_dataset[kwargs["DimensionFieldName"]].dimensions
                 for dimension in dimensions:
+                    if dimension not in dim_dataset.variables:
+                        # A dimension without a coordinate variable
+                        dataset.createDimension(dimension, dim_dataset.dimensions[dimension].size)
+                        continue
+
                     in_dimension_variable = dim_dataset[dimension]
                     dataset.createDimension(dimension, in_dimension_variable.size)
                     out_dimension_variable = dataset.createVariable(
